@@ -126,6 +126,18 @@ impl FixedWindowRoller {
             count,
         }
     }
+
+    /// The rotation itself (`rotate`, what `roll` runs for `count > 0`) with its `io::Result`,
+    /// i.e. before the conversion into `anyhow::Error`.
+    pub fn verif_rotate(&self, file: &Path) -> io::Result<()> {
+        rotate(
+            self.pattern.clone(),
+            self.compression,
+            self.base,
+            self.count,
+            file.to_path_buf(),
+        )
+    }
 }
 
 impl Roll for FixedWindowRoller {
